@@ -134,6 +134,7 @@ def run(chk, only=None):
         ks = [1, 3] if quick else [1, 2, 5]
         configs = [("default", {}), ("lanczos", {"max_cholesky_size": 0}), ("nofast", {"fast_root": False})]
         configs.append(("ciq", {"ciq": True}))
+        configs.append(("ciq-precond", {"ciq": True, "precond": True}))
         # query histories on the same object before sampling (cached factorizations steer the root method)
         configs += [("after-diagonalization", {"pre": "diagonalization"}), ("after-root_inv", {"pre": "root_inv_decomposition"}),
                     ("after-eigh", {"pre": "eigh"}), ("after-cholesky", {"pre": "cholesky"})]
@@ -147,10 +148,12 @@ def run(chk, only=None):
                 insts += [(it, 3) for it in extra_instances(chk.rng, dtype, batch)]
                 for it, nsz in insts:
                     for cname, cfg in configs:
-                        if cname != "default" and (dtype == torch.float32 or (quick and batch != ())):
+                        if cname != "default" and (dtype == torch.float32 or (quick and batch != () and cname != "ciq-precond")):
                             continue
                         if cname == "ciq" and (quick and it.name not in ("Dense[psd]", "Kronecker", "AddedDiag", "Diag")):
                             continue
+                        if cname == "ciq-precond" and it.name not in ("AddedDiag", "AddedDiag(Toeplitz,ConstantDiag)", "Toeplitz+Diag"):
+                            continue  # classes whose _preconditioner() is active once min_preconditioning_size allows it
                         if it.name.startswith(("CatRows", "AddLowRank")) and cname in ("lanczos", "ciq"):
                             continue  # transplants assume mutually inverse cached roots (open finding D30 for Lanczos roots)
                         if cname.startswith("after-") and quick and it.name not in (
@@ -199,6 +202,9 @@ def one_case(chk, noise, it, dtype, batch, k, cname, cfg, cell, lines, expect, s
             st.enter_context(settings.ciq_samples(True))
             st.enter_context(settings.minres_tolerance(1e-7))
             st.enter_context(settings.num_contour_quadrature(25))
+        if cfg.get("precond"):
+            st.enter_context(settings.min_preconditioning_size(0))
+            st.enter_context(settings.max_preconditioner_size(2))
         torch.manual_seed(chk.rng.randrange(2 ** 31))
         op = it.build()
         if cfg.get("pre"):
@@ -240,7 +246,7 @@ def one_case(chk, noise, it, dtype, batch, k, cname, cfg, cell, lines, expect, s
             L[:, j] = col.reshape(-1).double()
         cov = L @ L.T
         want = torch.block_diag(*[a for a in batch_members(A, nb_)]) if nb_ else A
-        if cname == "ciq":
+        if cname in ("ciq", "ciq-precond"):
             tol = 2e-2
         elif cname.startswith("after-"):
             tol = 1e-6
